@@ -12,6 +12,9 @@ Definition predicted_obs (cfg : config) (e : env) (q : req) : obs :=
       if c_mitm cfg && is_connect q
       then {| o_status := 200; o_hdr := []; o_dials := []; o_reached := 0; o_from_peer := false;
               o_targets := []; o_target_is_local := false |}
+      else if unroutable q
+      then {| o_status := 500; o_hdr := []; o_dials := []; o_reached := 0; o_from_peer := false;
+              o_targets := []; o_target_is_local := false |}
       else {| o_status := 200; o_hdr := []; o_dials := [r_host q]; o_reached := 1; o_from_peer := true;
               o_targets := [url_hostname (r_host q)]; o_target_is_local := false |}
   end.
@@ -109,13 +112,13 @@ Section Oracle.
   Proof. intro Hk. rewrite forallb_forall in status_map. apply N.eqb_eq. apply status_map. exact Hk. Qed.
 
   Theorem model_meets_oracle cfg e q :
-    xcase_prop_ok {| x_cfg := cfg; x_env := e; x_req := q; x_obs := predicted_obs cfg e q |} = true.
+    xcase_prop_ok {| x_cfg := cfg; x_env := e; x_req := q; x_raw_host := r_host q; x_obs := predicted_obs cfg e q |} = true.
   Proof.
     unfold xcase_prop_ok, predicted_obs. cbn [x_cfg x_env x_req x_obs].
     destruct (verdict_of cfg e q) as [|k] eqn:V.
     - (* allowed *)
       pose proof (proj1 (verdict_allow_iff order cfg e q) V) as Hall.
-      set (o := if c_mitm cfg && is_connect q then _ else _).
+      set (o := if c_mitm cfg && is_connect q then _ else if unroutable q then _ else _).
       assert (forall k, In k security_controls -> fails_certainly cfg e q o k = false) as NF.
       { intros k Hk. unfold fails_certainly.
         rewrite (passes_not_must_fail cfg e q k Hk (Hall k Hk)). simpl.
@@ -126,17 +129,17 @@ Section Oracle.
           assert (target_is_local (c_idna cfg) (c_aliases cfg) (url_hostname (r_host q)) = false) as T.
           { destruct (target_is_local _ _ _) eqn:T; [|reflexivity].
             rewrite (localhost_complete _ _ _ idna_flag dot_flag zone_flag unspec_flag T) in Hall. discriminate. }
-          unfold o. destruct (c_mitm cfg && is_connect q); simpl; [reflexivity | rewrite T; reflexivity].
+          unfold o. destruct (c_mitm cfg && is_connect q); [reflexivity|]. destruct (unroutable q); simpl; [reflexivity | rewrite T; reflexivity].
         - (* CDeny *) cbn [passes] in Hall. destruct (c_deny cfg) as [m|]; [|reflexivity].
           apply negb_true_iff in Hall. rewrite forms_eq in Hall. unfold deny_forms in Hall. cbn [existsb] in Hall.
           apply orb_false_iff in Hall as [Hm Hall]. apply orb_false_iff in Hall as [_ Hall].
           apply orb_false_iff in Hall as [Hd _].
-          unfold o. destruct (c_mitm cfg && is_connect q); simpl; [reflexivity | rewrite Hm, Hd; reflexivity]. }
+          unfold o. destruct (c_mitm cfg && is_connect q); [reflexivity|]. destruct (unroutable q); simpl; [reflexivity | rewrite Hm, Hd; reflexivity]. }
       assert (existsb (fails_certainly cfg e q o) security_controls = false) as ->.
       { apply not_true_is_false. intro H. apply existsb_exists in H as (k & Hk & Hf).
         rewrite (NF k Hk) in Hf. discriminate. }
       assert (forwarded_ok cfg q o = true) as F.
-      { unfold forwarded_ok, o. destruct (c_mitm cfg && is_connect q); reflexivity. }
+      { unfold forwarded_ok, o. destruct (c_mitm cfg && is_connect q); [reflexivity|]. destruct (unroutable q); reflexivity. }
       rewrite F. destruct (forallb (passes_certainly cfg e q o) security_controls); [reflexivity | apply orb_true_r].
     - (* refused by k *)
       destruct (verdict_deny_sound order cfg e q k V) as (Hns & He & Hp).
